@@ -175,9 +175,15 @@ DEPENDS = {
 }
 
 
+# mechanisms whose code exists only with cargo feature `weak`
+WEAK_ONLY = {"weak-wire"}
+
+
 def run(R, ctx, prop):
     table = _rules()
     for mech in DEPENDS.get(prop, []):
+        if mech in WEAK_ONLY and "weak" not in getattr(ctx.yrs, "features", ()):
+            continue   # the anchored code is not compiled in this configuration
         for n, f in enumerate(table[mech]):
             rid = "%s.m.%s.%d" % (prop, mech, n)
             R.run(rid, lambda R_, c_, f=f, rid=rid: f(R_, c_, rid), ctx)
